@@ -2311,6 +2311,10 @@ def chain_child(scope):
     # previous failed branches are forgiven as the
     # scope is re-wired into a new stack
     del nxt_in_chain.maps[0][CHILD_ERRORS][:]
+    # modes are lexical: the next link in the chain is interpreted in
+    # the mode of the chaining spec, not the mode its predecessor set
+    nxt_in_chain.maps[0][MODE] = scope.maps[0][MODE]
+    nxt_in_chain.maps[0][MIN_MODE] = scope.maps[0][MIN_MODE]
     return nxt_in_chain
 
 
